@@ -159,6 +159,7 @@ impl Endpoint {
     /// `None` if the endpoint is [`close`](Self::close)d.
     pub(crate) fn accept(&self) -> Accept<'_> {
         Accept {
+            endpoint: &self.inner,
             inner: self.inner.accept(),
         }
     }
@@ -168,6 +169,7 @@ pin_project_lite::pin_project! {
     /// Future produced by [`Endpoint::accept`]
     #[must_use = "futures/streams/sinks do nothing unless you `.await` or poll them"]
     pub(crate) struct Accept<'a> {
+        endpoint: &'a quinn::Endpoint,
         #[pin]
         inner: quinn::Accept<'a>,
     }
@@ -177,11 +179,22 @@ impl Future for Accept<'_> {
     type Output = Option<Connecting>;
 
     fn poll(self: Pin<&mut Self>, ctx: &mut Context<'_>) -> Poll<Self::Output> {
-        self.project().inner.poll(ctx).map(|maybe_connecting| {
-            maybe_connecting
-                .and_then(|incoming| incoming.accept().ok())
-                .map(Connecting::new_inbound)
-        })
+        let mut this = self.project();
+        loop {
+            match std::task::ready!(this.inner.as_mut().poll(ctx)) {
+                // The endpoint has been closed or its driver is gone
+                None => return Poll::Ready(None),
+                Some(incoming) => match incoming.accept() {
+                    Ok(connecting) => return Poll::Ready(Some(Connecting::new_inbound(connecting))),
+                    // A single unacceptable connection attempt (e.g. an unknown server name) must
+                    // not be mistaken for a closed endpoint: keep waiting for the next one.
+                    Err(e) => {
+                        trace!("refusing incoming connection: {e}");
+                        this.inner.set(this.endpoint.accept());
+                    }
+                },
+            }
+        }
     }
 }
 
